@@ -39,7 +39,10 @@ m = {
     ],
     'checks': checks,
     'not_applicable': na,
-    'notes': 'fix: commits in /repo are listed in known_findings.txt (fixed: entries). See DESIGN.md.',
+    'notes': ('Six genuine defects were found by the checks on the pinned tree and repaired with `fix:` commits in /repo (15857a9, 4f3a4f8, 0a22c55, 1fc2890, d104d25, 1c5b459); '
+              'they are recorded as `fixed:` lines in known_findings.txt (no `known:` entries remain). /repo carries no hooks: all instrumentation is added to scratch copies. '
+              'Properties C05, C06, C07/C13 (Debug), C11 (post-panic state), C18 and C19 (N = usize::MAX) additionally carry native BOUNDED stand-ins, labelled bounded in the evidence and never counted as proved. '
+              '`./check selftest` runs the machinery against the 60 seeded changes in seeded/ (results in seeded/RESULTS.md). See DESIGN.md sections 11-12.'),
 }
 json.dump(m, open(os.path.join(VERIF, 'MANIFEST.json'), 'w'), indent=1)
 print('MANIFEST.json: %d checks, %d not_applicable' % (len(checks), len(na)))
